@@ -70,11 +70,58 @@ def run(ctx):
         bool_edges(dr, Td, lambda c: c[0] == "bin" and c[1] == "Ge" and is_remaining(c[2]) and c[3][0] == "call" and c[3][1] == "core::slice::<impl [T]>::len", True) + \
         bool_edges(dr, Td, lambda c: c[0] == "bin" and c[1] == "Gt" and c[2][0] == "call" and c[2][1] == "core::slice::<impl [T]>::len" and is_remaining(c[3]), False) + \
         bool_edges(dr, Td, lambda c: c[0] == "bin" and c[1] == "Le" and c[2][0] == "call" and c[2][1] == "core::slice::<impl [T]>::len" and is_remaining(c[3]), True)
+    def bounded(t, depth=0):
+        """t <= S - total_read, syntactically: the remaining allowance itself, a min() with it, or a join of such values"""
+        t = M.noref(t)
+        while t[0] == "cast":
+            t = t[2]
+        if depth > 8:
+            return False
+        if is_remaining(t):
+            return True
+        if t[0] == "call" and t[1] in ("std::cmp::min", "core::cmp::min", "std::cmp::Ord::min") :
+            return any(bounded(x, depth + 1) for x in t[2])
+        if t[0] == "phi":
+            return all(bounded(a, depth + 1) for a in t[1])
+        return False
     ok = bool(some_e)
     for e in some_e:
         reach = dr.reachable(e[1], removed_blocks=reslice, removed_edges=set(fits))
         if rb in reach:
-            ok = False
+            # second way to establish it: under the Some(S) edge the buffer handed to read() is storage[..end] with end <= S - total_read
+            region = dr.reachable(e[1])
+            Tr_ = M.Terms(dr, blocks=region)
+            barg = Tr_.operand(dr.blocks[rb]["term"]["args"][1])
+            x = M.noref(barg)
+            while x[0] in ("cast", "deref", "ref") or (x[0] == "call" and x[1] in M.TRANSPARENT):
+                x = x[2] if x[0] == "cast" else (x[1] if x[0] in ("deref", "ref") else x[2][0])
+            okb = False
+            # ... provided the value is (re)computed on *every* path from that edge: a definition before the edge would be
+            # invisible to the region-restricted terms
+            L_ = Td.origin_local(dr.blocks[rb]["term"]["args"][1])
+            chain = []
+            seen_ = set()
+            while L_ is not None and L_ not in seen_:
+                seen_.add(L_)
+                ds_ = [d_ for d_ in dr.defs().get(L_, []) if d_[2].get("k") != "partial"]
+                chain.append((L_, ds_))
+                nxt = None
+                if len(ds_) == 1 and ds_[0][2].get("k") in ("ref", "use", "cast"):
+                    src_ = ds_[0][2].get("p") or (ds_[0][2].get("op") or {}).get("p")
+                    if src_ and not [e_ for e_ in src_["proj"] if e_["k"] != "deref"]:
+                        nxt = src_["l"]
+                L_ = nxt
+            root_defs = [d_[0] for d_ in chain[-1][1]] if chain else []
+            all_in = bool(root_defs) and all(b_ in region for b_ in root_defs) and dominated_by_blocks(dr, rb, root_defs, start=e[1])
+            if not all_in:
+                x = ("unknown",)
+            if x[0] == "call" and ("index_mut" in x[1].lower() or x[1].endswith("::index")) and len(x[2]) == 2:
+                rng = x[2][1]
+                if rng[0] == "agg" and rng[1][1] in ("std::ops::Range", "std::ops::RangeTo"):
+                    start_ok = rng[1][1] == "std::ops::RangeTo" or const_of(rng[2][0]) == 0
+                    okb = start_ok and bounded(rng[2][-1])
+            if not okb:
+                ok = False
     ctx.ob("R03.1", "read-buffer<=remaining-allowance", ok, dr.loc(rb),
            "with a limit S every path to the OS read must clip the buffer to S - total_read (re-slice at %s) or have established buf.len() <= S - total_read (edges %s): "
            "otherwise one read can return more than the limit allows / consume data that is then over the limit" % (reslice, fits))
